@@ -411,6 +411,21 @@ pub fn run(tier: Tier) -> i32 {
         extra: vec![],
     });
 
+    // scripts over the public reader interface that concern this property (shared with C11)
+    {
+        let (n, viols) = super::c11::scripts_for("C01", "plain-create", tier);
+        for (k, w, j) in viols {
+            rep.violation(k, w, j);
+        }
+        rep.part(Part {
+            name: "lib: scripts without projection (ends, source errors, layout changes between records)".into(),
+            evaluations: n,
+            nontrivial: n,
+            note: "every sequence of 1..3 (thorough 4) symbols over {six record kinds, a transient I/O error of the source, the source reporting its end early, a change of the column layout} without projection, read_site called two more times than there are steps: every complete record is counted once at its own index whatever came before it".into(),
+            exhaustive: true,
+            extra: vec![],
+        });
+    }
     // L2
     let scratch = Scratch::new("c01");
     let s = tier.pick(3, 4);
@@ -587,6 +602,7 @@ pub fn replay(case: &J) -> Option<Vec<String>> {
             }
             Some(v.into_iter().map(|(k, w, _)| format!("{k} :: {w}")).collect())
         }
+        "c01-script" => super::c11::replay_script(case),
         "c01-cli" => {
             let scratch = Scratch::new("c01r");
             let argv: Vec<String> = case.get("argv")?.as_arr()?.iter().filter_map(|a| a.as_str().map(|s| s.to_string())).collect();
